@@ -120,10 +120,20 @@ def convergence_claim(case, d, g):
     if abs(fx0) > HI_SCALE:
         return None
     if fx0 > roots[-1]:
-        return roots[-1], deg
-    if fx0 < roots[0]:
-        return roots[0], deg
-    return None
+        r = roots[-1]
+    elif fx0 < roots[0]:
+        r = roots[0]
+    else:
+        return None
+    # the requested relative step must be attainable in floating point: near the root the evaluation of the
+    # expanded polynomial carries a rounding noise of about eps * sum |c_k r^k|, i.e. a step noise of that over
+    # |g'(r)|; a tolerance below (a generous multiple of) it cannot be demanded ("plus rounding")
+    if r != 0:
+        noise = 8 * (deg + 3) * EPS * sum(abs(c) * abs(r) ** k for k, c in enumerate(g))
+        slope = abs(peval(pderiv(g), r))
+        if slope == 0 or Fraction(d['tol']) / 100 * abs(r) < 4 * noise / slope:
+            return None
+    return r, deg
 
 
 def judge(case, impl):
